@@ -151,6 +151,35 @@ func (s *state) hset(l *Loc, t *Term) {
 			delete(s.heap, k)
 		}
 	}
+	// a write to a byte window overwrites the overlapping part of sibling
+	// windows written earlier: those keep only their non-overlapping pieces
+	if n := len(l.Path); n > 0 {
+		if lo, hi, ok := window(l.Path[n-1]); ok && hi < 1<<39 {
+			for k, e := range s.heap {
+				if e.loc.Root != l.Root || len(e.loc.Path) != n || !pathHasPrefix(e.loc.Path, l.Path[:n-1]) {
+					continue
+				}
+				elo, ehi, ok := window(e.loc.Path[n-1])
+				if !ok || ehi >= 1<<39 || !(elo < hi && lo < ehi) {
+					continue
+				}
+				delete(s.heap, k)
+				piece := func(a, b int64) {
+					if a >= b {
+						return
+					}
+					nl := &Loc{Root: l.Root, Path: append(append([]string{}, l.Path[:n-1]...), relWindow(a, b)), Len: -1, NonNil: e.loc.NonNil}
+					pt := e.t
+					if !(a == elo && b == ehi) {
+						pt = mk("sel", e.t, mk(relWindow(a-elo, b-elo)))
+					}
+					s.heap[nl.key()] = hent{nl, pt}
+				}
+				piece(elo, lo)
+				piece(hi, ehi)
+			}
+		}
+	}
 	s.heap[l.key()] = hent{l, t}
 }
 
@@ -1457,7 +1486,7 @@ func (w *walker) uninterpreted(s *state, fr *frame, instr ssa.CallInstruction, a
 				written = true
 			}
 		}
-		if written && i == 0 && (c.Op == "zero" || !readsRecv) {
+		if written && i == 0 && (c.Op == "zero" || !readsRecv || PureDest[name]) {
 			continue // pure destination: fresh object, or a callee that never reads its receiver
 		}
 		if written && i == 0 && a.Op == "ref" && len(c.Args) == 0 && c.String() == defaultContent(a.Loc).String() {
@@ -1590,6 +1619,23 @@ func (w *walker) rootLen(s *state, root string) int64 {
 		return n
 	}
 	return -1
+}
+
+// PureDest lists methods that overwrite their receiver completely,
+// whatever it held before, although the may-read summary says they read it
+// (they read back what they have just written, e.g. to fix up a sign bit or to
+// reduce in place).  Confirmed by reading; the previous receiver state is not
+// an input of these operations and is left out of their terms.
+var PureDest = map[string]bool{
+	"CompressedEdwardsY.SetEdwardsPoint":    true, // y.ToBytes(p[:]) then p[31] ^= sign
+	"CompressedRistretto.SetRistrettoPoint": true, // s.ToBytes(p[:])
+	"Scalar.SetBytesModOrder":               true, // SetBits(in) then Reduce in place
+	"Scalar.SetBytesModOrderWide":           true,
+	"Scalar.SetCanonicalBytes":              true,
+	"Scalar.SetBits":                        true,
+	"MontgomeryPoint.SetEdwards":            true,
+	"EdwardsPoint.SetCompressedY":           true,
+	"RistrettoPoint.SetCompressed":          true,
 }
 
 // invokeWrites: which arguments (receiver = 0) an interface call may write.
